@@ -413,6 +413,10 @@ class Oracle:
         if k == "insert":
             if s["table"] not in self.tables:
                 return "err"
+            d = self.tables[s["table"]][0]
+            # NOT NULL / PRIMARY KEY: the whole statement is rejected
+            if any(v is None and c[2] for row in s["rows"] for v, c in zip(row, d.cols)):
+                return "err"
             self.tables[s["table"]][1].extend(s["rows"])
             return "ok:%d" % len(s["rows"])
         if k == "delete":
